@@ -247,7 +247,10 @@ func parseRequestDataToRequest(lmd *Daemon, requestData map[string]interface{}) 
 	}
 	req.Backends = backends
 
-	return req, nil
+	req.SetRequestColumns()
+	err = req.SetSortColumns()
+
+	return req, err
 }
 
 func parseHTTPFilterRequestData(req *Request, val interface{}, prefix string) (err error) {
